@@ -147,6 +147,14 @@ theorem batch_mutate_duplicate_panics [BEq D] (a : Acc D) (proofs : List (List D
     batch_mutate_leaf_and_update_mps H a proofs idxs muts = none := batch_dup_panics H a proofs idxs muts h
 example : ¬ (([⟨2, 5, []⟩, ⟨1, 6, []⟩, ⟨2, 7, []⟩] : List (LeafMutation Nat)).map (·.leaf_index)).Nodup := by decide
 
+/-- the other excluded branch: **an out-of-range index panics** — a mutated leaf index `≥ leaf_count`, a tracked
+    leaf index `≥ leaf_count`, or proof / index lists of different lengths (the `assert!`s of the routine) -/
+theorem batch_mutate_out_of_range_panics [BEq D] (a : Acc D) (proofs : List (List D)) (idxs : List Nat)
+    (muts : List (LeafMutation D))
+    (h : (∃ mu ∈ muts, a.leaf_count ≤ mu.leaf_index) ∨ (∃ t ∈ idxs, a.leaf_count ≤ t) ∨ proofs.length ≠ idxs.length) :
+    batch_mutate_leaf_and_update_mps H a proofs idxs muts = none := batch_oob_panics H a proofs idxs muts h
+example : ∃ t ∈ [0, 4], (3 : Nat) ≤ t := ⟨4, by simp, by decide⟩
+
 /-- the empty batch leaves any accumulator unchanged — in particular it does not panic -/
 theorem batch_mutate_empty [BEq D] (a : Acc D) :
     batch_mutate_leaf_and_update_mps H a [] [] [] = some (a, [], []) := batch_empty H a
